@@ -63,7 +63,7 @@ PROPS['C05'] = Prop(
                bounds='STEP FROM ANY STATE: one operation (+1 re-entrant operation) from every quiescent queue state with <= 3 pending events and <= 2 recycled slots (shape determined by these two numbers; keys chosen, payloads symbolic), then a full drain'),
            Run('q_history_k2_byvalue', 'q_history.cpp', {'KK': 2, 'RA': 1, 'PAYLOAD': 1}, covers=11, optional_covers=(11, 12, 0, 2, 9), bounds=_Q_BOUNDS % (2, 1, 'copyable tracked object BY VALUE in the prototype (a moved-from payload is recognisable)')),
            Run('q_history_k3_moveonly', 'q_history.cpp', {'KK': 3, 'RA': 0, 'PAYLOAD': 3}, covers=11, optional_covers=(11, 12, 4, 5, 7), bounds=_Q_BOUNDS % (3, 0, 'move-only tracked object by const reference'))],
-    thorough=[Run('q_history_step_from_any_k2', 'q_history.cpp', {'KK': 2, 'RA': 1, 'PAYLOAD': 0, 'INIT_MAX': 2}, covers=11, optional_covers=(11, 12, 10, 9), budget_s=1700, bounds='two steps from every quiescent state with <= 2 pending events and <= 2 free slots, RA=1'),
+    thorough=[Run('q_history_step_from_any_k2', 'q_history.cpp', {'KK': 2, 'RA': 1, 'PAYLOAD': 0, 'INIT_MAX': 3}, covers=11, optional_covers=(11, 12, 10, 9), budget_s=1700, bounds='two steps from every quiescent state with <= 3 pending events and <= 2 free slots, RA=1'),
               Run('q_history_k4_int', 'q_history.cpp', {'KK': 4, 'RA': 1, 'PAYLOAD': 0}, covers=11, optional_covers=(11, 12), budget_s=1700, bounds=_Q_BOUNDS % (4, 1, 'two uint32_t by value')),
               Run('q_history_k4_byvalue', 'q_history.cpp', {'KK': 4, 'RA': 0, 'PAYLOAD': 1}, covers=11, optional_covers=(11, 12, 4, 5), budget_s=1700, bounds=_Q_BOUNDS % (4, 0, 'copyable tracked object by value')),
               Run('q_history_k4_moveonly', 'q_history.cpp', {'KK': 4, 'RA': 1, 'PAYLOAD': 3}, covers=11, optional_covers=(11, 12, 7,), budget_s=1700, bounds=_Q_BOUNDS % (4, 1, 'move-only tracked object by const reference'))],
